@@ -24,6 +24,9 @@
  *     ad,q,fid,off,len   chunkqueue_append_file_fd     (open descriptor)
  *     ac,q            chunkqueue_append_chunkqueue(q, other)
  *     mt,q,seed,len   chunkqueue_append_mem_to_tempfile
+ *     sp,q,seed,len   pat(seed,0..len-1) is written into a fresh pipe, then
+ *                     chunkqueue_append_splice_pipe_tempfile(q, pipe, len) (the real splice();
+ *                     no scripted write result is consumed by it; len <= 60000); result sp:<len>|-1
  *     st,q,n          chunkqueue_steal(q <- other, n)
  *     sw,q,n          chunkqueue_steal_with_tempfiles(q <- other, n)
  *     cr,q,s,off,len  chunkqueue_append_cq_range(dst q, src s, off, len)
@@ -366,6 +369,23 @@ static void do_op(chunkqueue **cq, char *tok) {
         int rc = chunkqueue_append_mem_to_tempfile(q, d, (size_t)a[1], errh);
         free(d);
         printf("mt:%d", rc);
+    }
+    else if (IS("sp") && nf == 4 && (a[1] < 0 || a[1] > 60000)) fputs("bad-op", stdout);
+    else if (IS("sp") && nf == 4) {
+      #ifdef HAVE_SPLICE
+        int pfd[2];
+        if (0 != pipe(pfd)) { fputs("sp:nopipe", stdout); return; }
+        char *d = gen((unsigned long)a[0], (size_t)a[1]);
+        ssize_t w = a[1] ? write(pfd[1], d, (size_t)a[1]) : 0;   /* (<= 60000 < pipe capacity) */
+        free(d);
+        close(pfd[1]);
+        ssize_t rc = (w == (ssize_t)a[1])
+          ? chunkqueue_append_splice_pipe_tempfile(q, pfd[0], (unsigned int)a[1], errh) : -1;
+        close(pfd[0]);
+        printf("sp:%lld", rc < 0 ? -1LL : (long long)rc);
+      #else
+        fputs("sp:nosplice", stdout);
+      #endif
     }
     else if (IS("st") && nf == 3) { chunkqueue_steal(q, o, (off_t)a[0]); fputs(op, stdout); }
     else if (IS("sw") && nf == 3) {
